@@ -55,6 +55,8 @@ struct SObs {
     shutdown_errors: Vec<ConnInfo>,
     resolved: Vec<u64>,
     shutdowns_done: usize,
+    /// request streams waiting in the transport's accept queue at the moment accept() reported "no more requests"
+    left_in_queue: Vec<u64>,
 }
 
 async fn server_app(net: Net, o: Shared<SObs>, cmds: Shared<VecDeque<usize>>, cmd_sig: Signal, done_sigs: Vec<Signal>, sp: Spawner) {
@@ -115,7 +117,10 @@ async fn server_app(net: Net, o: Shared<SObs>, cmds: Shared<VecDeque<usize>>, cm
                 });
             }
             Out::Acc(Ok(None)) => {
-                o.borrow_mut().accept_end = Some(Ok(()));
+                let waiting: Vec<u64> = net.lock().ends[Side::Server.idx()].accept_q[crate::simnet::Dir::Bidi as usize].iter().copied().collect();
+                let mut g = o.borrow_mut();
+                g.accept_end = Some(Ok(()));
+                g.left_in_queue = waiting;
                 break;
             }
             Out::Acc(Err(e)) => {
@@ -311,6 +316,12 @@ pub fn run_server(ops: &[SOp], style: Style, sched: &[u16], credit: u64, newest_
             }
             ctx.class("final_goaway_checked_after_accept_ended");
         }
+    }
+    // "no more requests" ends the application's accept loop: a request stream that had already arrived then is never looked
+    // at again - it is neither served nor refused with H3_REQUEST_REJECTED (its client learns nothing until the connection
+    // goes away)
+    if !obs.left_in_queue.is_empty() {
+        return fail(format!("accept() reported 'no more requests' while the request stream(s) {:?} were waiting in the transport's accept queue: they are neither served nor rejected with H3_REQUEST_REJECTED (last GOAWAY id sent: {:?})", obs.left_in_queue, goaways.last()));
     }
     let nshut = ops.iter().filter(|o| matches!(o, SOp::Shutdown(_))).count();
     if nshut > 0 && obs.shutdowns_done == nshut && goaways.is_empty() {
